@@ -223,6 +223,21 @@ func (p c18) battery(env *Env) (*Case, []*Out) {
 			}
 			add(fmt.Sprintf("odd %s opts=%d", o.name, opt), spec, c18Run{Kind: "odd", What: o.name, Ref: -1})
 		}
+		// ... and as a definition referenced twice (directly and as array items), and as a map's value schema
+		nf := *t0
+		d := withDef(withDef(cloneObj(t0.Doc), "OddTarget", Obj{{"type", "object"}, {"properties", Obj{{"x", Obj{{"type", "string"}}}}}}), "OddPrim", Obj{{"type", "string"}, {"minLength", 2}})
+		d = withDef(d, "OddDef", o.v)
+		d = addProp(d, "odd0", Obj{{"$ref", "#/$defs/OddDef"}})
+		d = addProp(d, "odd1", Obj{{"type", "array"}, {"items", Obj{{"$ref", "#/$defs/OddDef"}}}})
+		d = addProp(d, "odd2", Obj{{"type", "object"}, {"additionalProperties", o.v}})
+		nf.Doc = d
+		spec := w.Spec("", nil, args)
+		for i := range spec.FS {
+			if spec.FS[i].Path == "/w/a/t0f.json" {
+				spec.FS[i].Data = nf.Bytes(nil)
+			}
+		}
+		add(fmt.Sprintf("odd %s as-def", o.name), spec, c18Run{Kind: "odd", What: o.name, Ref: -1})
 	}
 	c.Meta, _ = json.Marshal(meta)
 	env.Stats.Counters["battery_runs"] += len(c.Runs)
@@ -1367,6 +1382,37 @@ var oddityTexts = []struct{ name, json string }{
 	{"ref-empty-fragment-path", "{\"$ref\": \"#/\"}"},
 	{"ref-url-encoded", "{\"$ref\": \"#/$defs/Odd%20Target\"}"},
 	{"ref-bad-url", "{\"$ref\": \"http://[::1\"}"},
+	{"enum-bool-untyped", "{\"enum\": [true, false]}"},
+	{"enum-mixed-untyped", "{\"enum\": [1, \"a\", null, true, 2.5]}"},
+	{"enum-two-types", "{\"type\": [\"string\", \"integer\"], \"enum\": [\"a\", 1]}"},
+	{"enum-nullable-typed", "{\"type\": [\"string\", \"null\"], \"enum\": [\"a\", null]}"},
+	{"addl-default-string", "{\"type\": \"object\", \"additionalProperties\": {\"type\": \"string\"}, \"default\": {\"k\": \"v\"}}"},
+	{"addl-default-integer", "{\"type\": \"object\", \"additionalProperties\": {\"type\": \"integer\"}, \"default\": {\"k\": 1}}"},
+	{"addl-default-number", "{\"type\": \"object\", \"additionalProperties\": {\"type\": \"number\"}, \"default\": {\"k\": 1.5}}"},
+	{"addl-default-boolean", "{\"type\": \"object\", \"additionalProperties\": {\"type\": \"boolean\"}, \"default\": {\"k\": true}}"},
+	{"addl-default-array", "{\"type\": \"object\", \"additionalProperties\": {\"type\": \"array\", \"items\": {\"type\": \"string\"}}, \"default\": {\"k\": [\"v\"]}}"},
+	{"addl-default-object", "{\"type\": \"object\", \"additionalProperties\": {\"type\": \"object\"}, \"default\": {\"k\": {}}}"},
+	{"addl-default-multi", "{\"type\": \"object\", \"additionalProperties\": {\"type\": [\"string\", \"null\"]}, \"default\": {\"k\": null}}"},
+	{"addl-default-wrong", "{\"type\": \"object\", \"additionalProperties\": {\"type\": \"integer\"}, \"default\": \"oops\"}"},
+	{"addl-true", "{\"type\": \"object\", \"properties\": {\"a\": {\"type\": \"string\"}}, \"additionalProperties\": true}"},
+	{"addl-ref", "{\"type\": \"object\", \"additionalProperties\": {\"$ref\": \"#/$defs/OddTarget\"}}"},
+	{"addl-untyped", "{\"type\": \"object\", \"additionalProperties\": {}}"},
+	{"anyof-refs-different-types", "{\"anyOf\": [{\"$ref\": \"#/$defs/OddPrim\"}, {\"$ref\": \"#/$defs/OddTarget\"}]}"},
+	{"allof-refs-different-types", "{\"allOf\": [{\"$ref\": \"#/$defs/OddPrim\"}, {\"$ref\": \"#/$defs/OddTarget\"}]}"},
+	{"anyof-same-prim-refs", "{\"anyOf\": [{\"$ref\": \"#/$defs/OddPrim\"}, {\"$ref\": \"#/$defs/OddPrim\"}]}"},
+	{"anyof-ref-and-null", "{\"anyOf\": [{\"$ref\": \"#/$defs/OddTarget\"}, {\"type\": \"null\"}]}"},
+	{"allof-typed-string-branches", "{\"type\": \"string\", \"allOf\": [{\"minLength\": 1}, {\"maxLength\": 5}]}"},
+	{"anyof-arrays", "{\"anyOf\": [{\"type\": \"array\", \"items\": {\"type\": \"string\"}}, {\"type\": \"array\", \"items\": {\"type\": \"integer\"}}]}"},
+	{"anyof-nested-anyof", "{\"anyOf\": [{\"anyOf\": [{\"type\": \"object\", \"properties\": {\"p\": {\"type\": \"string\"}}}, {\"type\": \"object\", \"properties\": {\"q\": {\"type\": \"string\"}}}]}, {\"type\": \"object\", \"properties\": {\"r\": {\"type\": \"string\"}}}]}"},
+	{"allof-nested-allof", "{\"allOf\": [{\"allOf\": [{\"type\": \"object\", \"properties\": {\"p\": {\"type\": \"string\"}}, \"required\": [\"p\"]}]}, {\"type\": \"object\", \"properties\": {\"r\": {\"type\": \"integer\"}}}]}"},
+	{"yaml-nonstring-keys", "{\"type\": \"object\", \"properties\": {\"~yamlraw~1\": {\"type\": \"string\"}, \"~yamlraw~true\": {\"type\": \"integer\"}, \"~yamlraw~2.5\": {\"type\": \"boolean\"}, \"~yamlraw~null\": {\"type\": \"string\"}}}"},
+	{"title-only", "{\"title\": \"Only A Title\"}"},
+	{"object-title-empty", "{\"type\": \"object\", \"title\": \"\", \"properties\": {\"a\": {\"type\": \"string\"}}}"},
+	{"enum-title-only-name", "{\"title\": \"!!!\", \"type\": \"string\", \"enum\": [\"x\"]}"},
+	{"property-name-symbols-only", "{\"type\": \"object\", \"properties\": {\"!!!\": {\"type\": \"string\", \"enum\": [\"x\"]}, \"???\": {\"type\": \"object\", \"properties\": {\"a\": {\"type\": \"string\"}}}}}"},
+	{"min-items-only", "{\"type\": \"array\", \"items\": {\"type\": \"string\"}, \"minItems\": 0, \"maxItems\": 0}"},
+	{"readonly-writeonly", "{\"type\": \"string\", \"readOnly\": true, \"writeOnly\": true, \"deprecated\": true, \"examples\": [1, {}]}"},
+	{"ref-https", "{\"$ref\": \"https://example.com/s/none.json\"}"},
 	{"ref-unsupported-scheme", "{\"$ref\": \"ftp://example.com/x.json\"}"},
 }
 
@@ -1406,7 +1452,7 @@ func genOddities(t *rapid.T, w *World, args []string, add addFn) {
 	for i := 0; i < n; i++ {
 		o := oddities[rapid.IntRange(0, len(oddities)-1).Draw(t, "odd")]
 		names = append(names, o.name)
-		pos := rapid.SampledFrom([]string{"prop", "prop", "def", "item", "nested", "required-prop"}).Draw(t, "oddpos")
+		pos := rapid.SampledFrom([]string{"prop", "prop", "def", "item", "nested", "required-prop", "def-ref", "addl", "allof-branch", "anyof-branch"}).Draw(t, "oddpos")
 		pname := fmt.Sprintf("odd%d", i)
 		switch pos {
 		case "prop":
@@ -1417,6 +1463,16 @@ func genOddities(t *rapid.T, w *World, args []string, add addFn) {
 			doc = addProp(doc, pname, Obj{{"type", "array"}, {"items", o.v}})
 		case "nested":
 			doc = addProp(doc, pname, Obj{{"type", "object"}, {"properties", Obj{{"inner", o.v}}}, {"required", []any{"inner"}}})
+		case "def-ref":
+			doc = withDef(doc, fmt.Sprintf("OddDef%d", i), o.v)
+			doc = addProp(doc, pname, Obj{{"$ref", fmt.Sprintf("#/$defs/OddDef%d", i)}})
+			doc = addProp(doc, pname+"again", Obj{{"type", "array"}, {"items", Obj{{"$ref", fmt.Sprintf("#/$defs/OddDef%d", i)}}}})
+		case "addl":
+			doc = addProp(doc, pname, Obj{{"type", "object"}, {"additionalProperties", o.v}})
+		case "allof-branch":
+			doc = addProp(doc, pname, Obj{{"allOf", []any{Obj{{"type", "object"}, {"properties", Obj{{"inner", o.v}}}}, Obj{{"type", "object"}, {"properties", Obj{{"other", Obj{{"type", "string"}}}}}}}}})
+		case "anyof-branch":
+			doc = addProp(doc, pname, Obj{{"anyOf", []any{Obj{{"type", "object"}, {"properties", Obj{{"other", Obj{{"type", "string"}}}}}}, Obj{{"type", "object"}, {"properties", Obj{{"inner", o.v}}}}}}})
 		case "required-prop":
 			doc = addProp(doc, pname, o.v)
 			if ty, _ := doc.Get("type"); ty == "object" {
